@@ -77,27 +77,35 @@ def conservedQ : List (Part K → K) :=
   [fun p => p.m, fun p => p.m * p.vx, fun p => p.m * p.vy, fun p => p.m * p.vz,
    fun p => p.m * p.x, fun p => p.m * p.y, fun p => p.m * p.z]
 
-theorem mergePair_additive (cbrtF : K → K) (t : K) (pi pj : Part K) (hm : pi.m + pj.m ≠ 0) :
-    ∀ f ∈ (conservedQ : List (Part K → K)), f (mergePair cbrtF t pi pj) = f pi + f pj := by
-  intro f hf
-  simp only [conservedQ, List.mem_cons, List.not_mem_nil, or_false] at hf
-  rcases hf with rfl | rfl | rfl | rfl | rfl | rfl | rfl <;>
-    simp only [mergePair, sc_hadd, sc_hmul, sc_hdiv, sc_one] <;> field_simp
-
 theorem feq_iff (a b : K) : feq a b = true ↔ a = b := by
   unfold feq
   simp only [sco_le, Bool.and_eq_true, decide_eq_true_eq]
   exact ⟨fun ⟨h1, h2⟩ => le_antisymm h1 h2, fun h => by subst h; exact ⟨le_refl _, le_refl _⟩⟩
 
+theorem mergePair_massive (mid : Bool) (cbrtF : K → K) (t : K) (pi pj : Part K) (hm : pi.m + pj.m ≠ 0) :
+    mergePair mid cbrtF t pi pj = mergePair false cbrtF t pi pj := by
+  have : feq (pi.m + pj.m) (0 : K) = false := by
+    rw [Bool.eq_false_iff]; intro h; exact hm ((feq_iff _ _).mp h)
+  unfold mergePair
+  simp only [sc_hadd, sc_zero, this, Bool.and_false, Bool.false_eq_true, if_false, Bool.false_and]
+
+theorem mergePair_additive (mid : Bool) (cbrtF : K → K) (t : K) (pi pj : Part K) (hm : pi.m + pj.m ≠ 0) :
+    ∀ f ∈ (conservedQ : List (Part K → K)), f (mergePair mid cbrtF t pi pj) = f pi + f pj := by
+  rw [mergePair_massive mid cbrtF t pi pj hm]
+  intro f hf
+  simp only [conservedQ, List.mem_cons, List.not_mem_nil, or_false] at hf
+  rcases hf with rfl | rfl | rfl | rfl | rfl | rfl | rfl <;>
+    simp only [mergePair, sc_hadd, sc_hmul, sc_hdiv, sc_one, Bool.false_and, Bool.false_eq_true, if_false] <;> field_simp
+
 /-- what `reb_collision_resolve_merge` does on a valid entry whose two particles have not
     collided at this time: the lower index becomes the merged particle, the return value asks
     for the removal of the higher index -/
-theorem merge_eval (cbrtF : K → K) (t : K) (s : Sim (Part K)) (c : Coll (GB K)) (n1 n2 : Nat)
+theorem merge_eval (mid : Bool) (cbrtF : K → K) (t : K) (s : Sim (Part K)) (c : Coll (GB K)) (n1 n2 : Nat)
     (hp1 : c.p1 = n1) (hp2 : c.p2 = n2) (h1 : n1 < s.ps.length) (h2 : n2 < s.ps.length)
     (hlc1 : s.ps[n1].lc ≠ t) (hlc2 : s.ps[n2].lc ≠ t) :
-    merge cbrtF t s c =
-      if n2 < n1 then ({ s with ps := s.ps.set n2 (mergePair cbrtF t s.ps[n2] s.ps[n1]) }, 1)
-      else ({ s with ps := s.ps.set n1 (mergePair cbrtF t s.ps[n1] s.ps[n2]) }, 2) := by
+    merge mid cbrtF t s c =
+      if n2 < n1 then ({ s with ps := s.ps.set n2 (mergePair mid cbrtF t s.ps[n2] s.ps[n1]) }, 1)
+      else ({ s with ps := s.ps.set n1 (mergePair mid cbrtF t s.ps[n1] s.ps[n2]) }, 2) := by
   have l1 : lookup s c.p1 = some s.ps[n1] := by
     unfold lookup; rw [hp1]; simp [h1]
   have l2 : lookup s c.p2 = some s.ps[n2] := by
@@ -117,9 +125,9 @@ theorem merge_eval (cbrtF : K → K) (t : K) (s : Sim (Part K)) (c : Coll (GB K)
 
 /-- the `last_collision == t` guard: a particle that already collided at time `t` is not merged
     again at `t` — state unchanged, outcome 0 -/
-theorem merge_guard (cbrtF : K → K) (t : K) (s : Sim (Part K)) (c : Coll (GB K)) (q1 q2 : Part K)
+theorem merge_guard (mid : Bool) (cbrtF : K → K) (t : K) (s : Sim (Part K)) (c : Coll (GB K)) (q1 q2 : Part K)
     (l1 : lookup s c.p1 = some q1) (l2 : lookup s c.p2 = some q2) (h : q1.lc = t ∨ q2.lc = t) :
-    merge cbrtF t s c = (s, 0) := by
+    merge mid cbrtF t s c = (s, 0) := by
   unfold merge
   simp only [l1, l2]
   have : (feq q1.lc t || feq q2.lc t) = true := by
@@ -128,12 +136,13 @@ theorem merge_guard (cbrtF : K → K) (t : K) (s : Sim (Part K)) (c : Coll (GB K
     · simp [(feq_iff _ _).mpr h]
   simp [this]
 
-theorem mergePair_id (cbrtF : K → K) (t : K) (pi pj : Part K) :
-    (mergePair cbrtF t pi pj).id = pi.id ∧ (mergePair cbrtF t pi pj).lc = t := ⟨rfl, rfl⟩
+theorem mergePair_id (mid : Bool) (cbrtF : K → K) (t : K) (pi pj : Part K) :
+    (mergePair mid cbrtF t pi pj).id = pi.id ∧ (mergePair mid cbrtF t pi pj).lc = t := by
+  unfold mergePair; split <;> exact ⟨rfl, rfl⟩
 
 /-- merge never adds, removes or reorders particles itself -/
-theorem merge_resOK (cbrtF : K → K) (t : K) :
-    ResOK (fun p : Part K => p.id) (G := GB K) (merge cbrtF t) := by
+theorem merge_resOK (mid : Bool) (cbrtF : K → K) (t : K) :
+    ResOK (fun p : Part K => p.id) (G := GB K) (merge mid cbrtF t) := by
   intro s c
   unfold merge
   split
@@ -147,7 +156,7 @@ theorem merge_resOK (cbrtF : K → K) (t : K) :
       simp only [List.getElem?_map, List.getElem?_set]
       -- the particle written at index i carries the identity of the one that was there
       have key : ∀ (p : Int) (q : Part K), lookup s p = some q →
-          (List.map (fun p => p.id) (s.ps.set p.toNat (mergePair cbrtF t q (if c.p2 < c.p1 then q1 else q2))))[j]? =
+          (List.map (fun p => p.id) (s.ps.set p.toNat (mergePair mid cbrtF t q (if c.p2 < c.p1 then q1 else q2))))[j]? =
           (List.map (fun p => p.id) s.ps)[j]? := by
         intro p q hl
         unfold lookup at hl
@@ -157,7 +166,7 @@ theorem merge_resOK (cbrtF : K → K) (t : K) :
           by_cases hj : p.toNat = j
           · subst hj
             obtain ⟨hlt, hq⟩ := List.getElem?_eq_some_iff.mp hl
-            simp [hlt, mergePair, ← hq]
+            simp [hlt, (mergePair_id mid cbrtF t _ _).1, ← hq]
           · simp [hj]
       by_cases hsw : c.p2 < c.p1
       · have := key c.p2 q2 l2
@@ -220,7 +229,7 @@ theorem elastic_axis (M b ux uy uz ax ay az bx by' bz : K) (hM : M ≠ 0)
 
 /-- the pair after the bounce, in terms of mass fractions -/
 theorem hsApply_fst (st ct sp cp dvx2 t : K) (p1 p2 : Part K) :
-    let n := hsApply st ct sp cp dvx2 t p1 p2 p1 p2
+    let n := hsApply false st ct sp cp dvx2 t p1 p2 p1 p2
     n.1.vx = p1.vx + p2.m/(p1.m+p2.m)*(cp*dvx2) ∧
     n.1.vy = p1.vy + p2.m/(p1.m+p2.m)*(ct*(sp*dvx2)) ∧
     n.1.vz = p1.vz + p2.m/(p1.m+p2.m)*(st*(sp*dvx2)) ∧
@@ -230,6 +239,14 @@ theorem hsApply_fst (st ct sp cp dvx2 t : K) (p1 p2 : Part K) :
     n.1.m = p1.m ∧ n.2.m = p2.m ∧ n.1.x = p1.x ∧ n.1.y = p1.y ∧ n.1.z = p1.z ∧
     n.2.x = p2.x ∧ n.2.y = p2.y ∧ n.2.z = p2.z ∧ n.1.id = p1.id ∧ n.2.id = p2.id := by
   simp [hsApply]
+
+theorem hsApply_massive (eqm : Bool) (st ct sp cp dvx2 t : K) (p1 p2 t1 t2 : Part K)
+    (hM : p1.m + p2.m ≠ 0) :
+    hsApply eqm st ct sp cp dvx2 t p1 p2 t1 t2 = hsApply false st ct sp cp dvx2 t p1 p2 t1 t2 := by
+  have : feq (p1.m + p2.m) (0 : K) = false := by
+    rw [Bool.eq_false_iff]; intro h; exact hM ((feq_iff _ _).mp h)
+  unfold hsApply
+  simp only [sc_hadd, sc_zero, this, Bool.and_false, Bool.false_eq_true, if_false, Bool.false_and]
 
 /-- total array sum after a merge step: lower index replaced by the merged particle, higher
     index removed -/
